@@ -23,7 +23,7 @@
    melt quotes, esett = 1 iff the backend reports the quote's invoice settled, cnt id cred = internal settlements credited to it.
 *)
 From Coq Require Import ZArith List Bool.
-From Verif Require Import Model Sem InvDb InvSwap InvMint InvMelt Corollaries Queries Footprint HRel Global GlobalQuote GlobalValue GlobalErr GlobalQuery GlobalMelt GlobalKeys Cuts CutOrder Conc Races GlobalBalance GlobalLedger Reconf GlobalPoll Trace Admin AdminProofs CutValue CutMint CutFrames ConcValue CutHistory CutBalance.
+From Verif Require Import Model Sem InvDb InvSwap InvMint InvMelt Corollaries Queries Footprint HRel Global GlobalQuote GlobalValue GlobalErr GlobalQuery GlobalMelt GlobalKeys Cuts CutOrder Conc Races GlobalBalance GlobalLedger Reconf GlobalPoll Trace Admin AdminProofs CutValue CutMint CutFrames ConcValue CutHistory CutBalance CutLedger.
 Import ListNotations.
 Open Scope Z_scope.
 
@@ -87,6 +87,31 @@ Theorem C02_no_inflation_ledger_reconf : forall (segs : list (config * list op))
         vS w' + ext_out w' (map fst ip') <= vR w' + per_quote (esett w') (d_mq (w_db w')).
 Proof. exact @no_inflation_ledger_reconf. Qed.
 Print Assumptions C02_no_inflation_ledger_reconf.
+
+Theorem C02_no_inflation_ledger_with_cuts : forall (cfg : config) (h : list hitem),
+       cfg_ok cfg ->
+       Forall cut_item h ->
+       hhonest cfg world0 h ->
+       Forall item_u64 h ->
+       hln_ok cfg world0 h ->
+       let w := hrun cfg world0 h in
+       let ip := snd (hltrace cfg world0 h []) in
+       vS w + ext_out w (map fst ip) <= vR w + per_quote (esett w) (d_mq (w_db w)) /\
+       NoDup (map fst ip) /\
+       (forall p : Z * Z, In p ip -> exists q : lquote, In q (d_lq (w_db w)) /\ lq_id q = fst p /\ lq_state q = 2).
+Proof. exact @no_inflation_ledger_with_cuts. Qed.
+Print Assumptions C02_no_inflation_ledger_with_cuts.
+
+Theorem C02_cut_ledger_history_ok : cfg_ok ledger_cfg /\
+       Forall cut_item cut_history /\
+       hhonest ledger_cfg world0 cut_history /\
+       Forall item_u64 cut_history /\
+       hln_ok ledger_cfg world0 cut_history /\
+       (let w := hrun ledger_cfg world0 cut_history in
+        (vS w, ext_out w (map fst (snd (hltrace ledger_cfg world0 cut_history []))), vR w,
+         per_quote (esett w) (d_mq (w_db w))) = (128, 0, 112, 176)).
+Proof. exact @cut_ledger_history_ok. Qed.
+Print Assumptions C02_cut_ledger_history_ok.
 
 Theorem C02_no_inflation_with_cuts : forall (cfg : config) (h : list hitem),
        cfg_ok cfg ->
